@@ -441,8 +441,9 @@ def check_int_conversion_table(ctx, unit):
                     return [min(s + 1, 3)]
                 return [s]
             _, ex = flow.run(f, [0], transfer, None)
-            # paths that end in the "%f" placeholder arm of do_printf_floats pop nothing by design
-            allowed = {1} if uq != "frg::do_printf_floats" else {0, 1}
+            # (the placeholder arm of do_printf_floats for %e/%g must consume its argument too: otherwise every later
+            # directive reads the argument of its predecessor, with the wrong type)
+            allowed = {1}
             ctx.inst("T.one-pop-per-conversion", uq, bool(ex) and set(ex) <= allowed, f.loc,
                      "argument pops per path: %s" % sorted(ex), f)
 
@@ -656,6 +657,41 @@ def check_fmt_spec(ctx, unit):
         rej = rej_other[0] and not acc_other[0]
         ctx.inst("T.fmt-conversions", "frg::detail_::fmt_impl::parse_fmt_spec: letters", letters == want and rej, f.loc,
                  "accepted letters %s, expected %s; other letters rejected: %s" % ("".join(sorted(letters)), "".join(sorted(want)), rej), f)
+    # every conversion the spec parser can select is rendered by format_integer (not met by an assertion): enumerated
+    # path-sensitively over the value of <options>.conversion
+    fi = [f for f in unit.functions if f.name == "format_integer" and f.uq.startswith("frg::_fmt_basics")]
+    if not fi:
+        raise AnalysisBroken("anchor vanished: _fmt_basics::format_integer")
+    enum_vals = {}
+    for g in unit.functions:
+        for x in g.all_nodes():
+            if x.kind == "DeclRefExpr" and x.get("dk") == "EnumConstant" and x.get("t") == "frg::format_conversion" and x.cv() is not None:
+                enum_vals[x.cv()] = x.n
+    done_fi = set()
+    for f in fi:
+        optp = [p_ for p_ in f.params() if "format_options" in p_["t"]]
+        if not optp or not enum_vals:
+            raise AnalysisBroken("anchor vanished: format_options parameter / format_conversion enumerators")
+        sig = f.sig.split("(")[0] + "<" + f.params()[0]["t"] + ">"
+        if sig in done_fi:
+            continue
+        done_fi.add(sig)
+        keys = {canon(x) for x in f.all_nodes() if x.kind == "MemberExpr" and x.m == "conversion"
+                and std_unwrap(x.children[0]).kind == "DeclRefExpr" and std_unwrap(x.children[0]).d["d"] == optp[0]["d"]}
+        if len(keys) != 1:
+            raise AnalysisBroken("anchor vanished: reads of <options>.conversion in format_integer")
+        key = next(iter(keys))
+        handled = set()
+
+        def observe(n, st, key=key):
+            if n.is_call() and n.callee and (n.callee["n"] in ("print_int", "print_digits") or
+                                             (n.callee["n"] == "append" and n.kind == "CXXMemberCallExpr")):
+                handled.add(st[key])
+        flow.value_states(f, {key: set(enum_vals)}, observe)
+        missing = sorted(enum_vals[v] for v in enum_vals if v not in handled)
+        ctx.inst("T.fmt-conversions", "%s: every conversion is rendered" % sig, not missing, f.loc,
+                 ("conversion(s) %s reach no output call: the {}-spec parser accepts them for every argument type, format_integer "
+                  "meets them with an assertion" % missing) if missing else "all %d conversions reach an output call" % len(enum_vals), f)
     fo = [f for f in unit.functions if f.name == "format_object" and "fmt_impl" in (f.owner_cls or "")]
     if not fo:
         raise AnalysisBroken("anchor vanished: format_object(fmt_impl)")
@@ -883,6 +919,72 @@ def check_float_lengths(ctx, unit, rule="B6.float-length"):
         res = RB.check_no_wrap_adds(ctx, rule, f, dom, label="frg::_fmt_basics::print_float", signed=True)
         if not res:
             raise AnalysisBroken("anchor vanished: length arithmetic of print_float")
+
+
+def check_sized_text(ctx, unit, rule="T.sized-text-complete"):
+    """A formatter that receives text together with its length (string, string_view) hands the sink that length: it never
+    passes <text>.data() to a callee without <text>.size() in the same call (a C-string append rediscovers the length with
+    strlen: the text is cut at an embedded NUL and a default-constructed string hands over a null pointer)."""
+    ctx.rule(rule, "formatters of sized text (string, string_view) never drop the length: <text>.data() is passed on only "
+             "together with <text>.size()", 2)
+    seen = set()
+    for f in unit.functions:
+        if not f.uq.startswith("frg::") or f.name not in ("format_object", "format"):
+            continue
+        sized = [p_ for p_ in f.params() if "string" in p_["t"] and "fmt_impl" not in p_["t"]]
+        if not sized:
+            continue
+        label = "%s(%s)" % (f.uq, sized[0]["t"])
+        if label in seen:
+            continue
+        seen.add(label)
+        bad = None
+        for c in f.all_nodes():
+            if not c.is_call():
+                continue
+            args = c.args
+            for a in args:
+                au = std_unwrap(a)
+                if au.kind == "CXXMemberCallExpr" and au.callee and au.callee["n"] == "data":
+                    base = au.child("obj")
+                    base = std_unwrap(base) if base is not None else None
+                    if base is None or base.kind != "DeclRefExpr" or base.d["d"] != sized[0]["d"]:
+                        continue
+                    with_len = any(y.kind == "CXXMemberCallExpr" and y.callee and y.callee["n"] == "size"
+                                   for b in args if b is not a for y in b.walk())
+                    if not with_len:
+                        bad = c
+        ctx.inst(rule, label, bad is None, (bad or f).loc,
+                 ("%s.data() is passed to %s without its length: the callee rediscovers it as a C string" %
+                  (sized[0]["n"], bad.callee["n"] if bad.callee else "a callee")) if bad else "length travels with the characters", f)
+
+
+def check_digits_length(ctx, unit, rule="B6.digits-length"):
+    """print_digits computes the length of the field from the digit count, the caller's precision (up to INT_MAX) and the
+    bytes of the thousands separators.  A sum that is computed in a 64-bit type and then narrowed to int loses its upper
+    bits: the padding arithmetic that follows overflows (signed overflow) or pads by billions of characters."""
+    ctx.rule(rule, "print_digits: no sum of lengths is narrowed from a 64-bit type to int (the field length is kept in the wide type)", 1)
+    fs = [f for f in unit.functions if f.name == "print_digits" and f.uq.startswith("frg::_fmt_basics")]
+    if not fs:
+        raise AnalysisBroken("anchor vanished: _fmt_basics::print_digits")
+    done = set()
+    for f in fs:
+        key = f.sig.split("(")[0] + "<" + (f.params()[1]["t"] if len(f.params()) > 1 else "?") + ">"
+        if key in done:
+            continue
+        done.add(key)
+        bad = []
+        n_sum = 0
+        for n in f.all_nodes():
+            if n.kind == "BinaryOperator" and n.op == "+" and (n.get("bits") or 0) >= 32 and not (n.get("t") or "").endswith("*"):
+                n_sum += 1
+            if n.kind == "ImplicitCastExpr" and n.get("ck") == "IntegralCast" and (n.get("bits") or 0) == 32 and n.children:
+                c = n.children[0]
+                if (c.get("bits") or c.strip().get("bits") or 0) == 64 and any(
+                        x.kind == "BinaryOperator" and x.op in ("+", "-", "*") for x in c.walk()):
+                    bad.append("%s (64 bit) is narrowed to int at %s" % (canon(c)[:60], n.loc))
+        ctx.inst(rule, key, not bad and n_sum > 0, f.loc, "; ".join(sorted(set(bad))[:2]) if bad else
+                 "%d length sums, none narrowed from a 64-bit type to int" % n_sum, f)
 
 
 def check_grouping_cursor(ctx, unit, rule="B.grouping-cursor"):
